@@ -11,6 +11,7 @@ import (
 	"sort"
 	"strings"
 	"sync"
+	"sync/atomic"
 	"time"
 
 	"golang.org/x/tools/go/ssa"
@@ -93,6 +94,7 @@ func cmdCheck(args []string) int {
 	timeout := 10 * time.Second
 	if *tier == "thorough" {
 		timeout = 60 * time.Second
+		noCache = true // every obligation is solved again
 	}
 	// targets
 	type target struct {
@@ -169,6 +171,7 @@ func cmdCheck(args []string) int {
 				for _, cd := range r.Cands {
 					cd.active = true
 				}
+				r.noNeg = true
 				solveAll(r, 60*time.Second, 10*time.Second)
 				r.Retried = true
 			}
@@ -342,6 +345,11 @@ func cmdCheck(args []string) int {
 	fmt.Printf("property=%s tier=%s functions=%d obligations=%d discharged=%d violations=%d undecided=%d new=%d missing=%d wall=%.1fs\n",
 		*prop, *tier, len(results), nProp, nDis, violations, len(undecided), len(newIDs), len(missing), time.Since(t0).Seconds())
 
+	if *repo == "/repo" {
+		// remember which queries the unchanged tree generates (input of pack-cache)
+		os.MkdirAll("/verif/.cache/used", 0o755)
+		os.WriteFile("/verif/.cache/used/"+*prop+".txt", []byte(strings.Join(sortedKeys(usedKeys), "\n")+"\n"), 0o644)
+	}
 	if *writeBase {
 		sort.Strings(propLevelIDs)
 		b, _ := json.MarshalIndent(Baseline{Property: *prop, Obligations: propLevelIDs}, "", " ")
@@ -482,6 +490,8 @@ func writeEvidence(prop, tier string, seed int, results []*FnResult, outs []oblO
 			"function_bodies_executed": bodies,
 			"supporting_obligations":   map[string]int{"total": nSupport, "discharged": nSupportOK},
 			"by_backend":               byBackend,
+			"queries_answered_from_packed_proof_cache": atomic.LoadInt64(&cacheHits),
+			"proof_cache_note":         "quick tier: a query whose complete SMT text is byte-identical to one already proved unsat (hash in /verif/cache/proofs.json) is not re-solved; any change to the code or contracts changes the text; the thorough tier re-solves everything",
 			"undecided":                undecided,
 			"missing_baseline_obligations": missing,
 			"new_obligations":          newIDs,
